@@ -648,5 +648,59 @@ func c06RunFuncs(u fw.Unit) fw.Result {
 			a.sample(map[string]any{"function": name, "domain": len(c06Domain), "routes": []string{"functions.Get(f).Execute", "SELECT f(..) via EmitSync"}})
 		}
 	}
+	if sp.Shard == 0 {
+		c06NumberToText(a)
+	}
 	return a.result()
+}
+
+// c06NumberToText: a number handed to a text function or cast to text keeps its value - the text reads back as
+// exactly the number it was made from (float64 values with more than seven significant digits, integral floats
+// above 2^24, values below 1e-7, every Go numeric type).
+func c06NumberToText(a *acc) {
+	vals := []any{1234567.891, 16777217.0, 0.30000000000000004, -0.123456789, 100000001.0, 2.5, 7, int64(9007199254740993), float32(2.5), 1e-9, -1700000000123.0}
+	queries := []struct{ sql, prefix string }{
+		{"SELECT concat('t', x) AS r FROM stream", "t"},
+		{"SELECT cast(x, 'string') AS r FROM stream", ""},
+		{"SELECT concat(x, 'u', x) AS r FROM stream", "\x00twice"},
+		{"SELECT lower(concat('T', x)) AS r FROM stream", "t"},
+	}
+	for _, q := range queries {
+		for _, v := range vals {
+			rows, e, _, _ := syncEval(q.sql, []Row{{"x": v}})
+			a.r.Evaluations++
+			a.r.States++
+			cs := map[string]any{"sql": q.sql, "x": fmt.Sprintf("%v (%T)", v, v)}
+			if e != "" || len(rows) != 1 || rows[0].Err != "" || rows[0].Row == nil {
+				a.r.Skipped++
+				continue
+			}
+			txt, ok := rows[0].Row["r"].(string)
+			if !ok {
+				a.r.Skipped++
+				continue
+			}
+			a.r.Nontrivial++
+			parts := []string{strings.TrimPrefix(txt, q.prefix)}
+			if q.prefix == "\x00twice" {
+				parts = strings.Split(txt, "u")
+			}
+			for _, part := range parts {
+				back, err := strconv.ParseFloat(strings.ToLower(part), 64)
+				want, _ := num(v)
+				if i, isInt := v.(int64); isInt {
+					bi, err2 := strconv.ParseInt(part, 10, 64)
+					if err2 == nil && bi == i {
+						continue
+					}
+				}
+				if err != nil || back != want {
+					a.fail("C06|func|number-to-text|value-not-preserved", fmt.Sprintf("%s with x = %v (%T) yields %q, which does not read back as %v", q.sql, v, v, txt, v), cs, fmt.Sprint(v), txt)
+					break
+				}
+			}
+			a.outcome(q.sql + txt)
+		}
+	}
+	a.sample(map[string]any{"number_to_text_queries": len(queries), "values": fmt.Sprint(vals)})
 }
